@@ -396,9 +396,14 @@ class _KML(Entry):
     methods = ("predict", "transform")
 
     def spec(self, draw):
-        return dict(cls=self.name, params=dict(n_clusters=draw(st.integers(1, 3)), norm=draw(st.sampled_from(["L1", "L2"])),
+        spec = dict(cls=self.name, params=dict(n_clusters=draw(st.integers(1, 3)), norm=draw(st.sampled_from(["L1", "L2"])),
                                                init=draw(st.sampled_from(["k-means++", "random"])), n_init=draw(st.integers(1, 2)),
                                                random_state=draw(st.one_of(st.none(), st.integers(0, 9))), max_iter=draw(st.sampled_from([5, 20, 6, 21]))))
+        # copy_x=False is only drawn for the L1 norm: scikit-learn documents that its own (L2) fit then centres the caller's array in
+        # place and puts it back with rounding differences; the L1 algorithm of this class has no reason to touch it
+        if spec["params"]["norm"] == "L1" and draw(st.integers(0, 2)) == 0:
+            spec["params"]["copy_x"] = False
+        return spec
 
     def attributes(self, est):
         return dict(cluster_centers_=est.cluster_centers_, labels_=est.labels_, inertia_=est.inertia_)
